@@ -31,7 +31,7 @@ FUNCTIONS = ["xdsl.transforms.canonicalization_patterns.riscv.*", "xdsl.dialects
              "xdsl.backend.riscv.prologue_epilogue_insertion"]
 ASSUMPTIONS = ["RV32IM(+F/D moves) reference semantics vx/rvsem.py written against the ISA manual", "li loads the 32-bit two's complement pattern of its immediate",
                "a canonicalization that raises a diagnostic (e.g. an out-of-range immediate) is a reported failure, not a wrong result"]
-OUTSIDE = ["snitch/stream extensions", "float arithmetic programs in the pipeline", "scf lowering in the pipeline", "assembly text emission"]
+OUTSIDE = ["snitch/stream extensions", "float arithmetic programs and float constant lowering (li + fcvt) in the pipeline: the reference machine has no FP registers", "scf lowering in the pipeline", "assembly text emission"]
 STUBS = []
 
 I32 = (-(1 << 31), (1 << 31) - 1)
